@@ -37,7 +37,7 @@ Inductive oobs := OAccepted | ORefused | ORead (o : obs).
 
 Inductive c01case :=
 | CDag (g : dagl) (keys : list (V * entry)) (v : V) (fuel : nat) (o : obs)
-| CHist (ops : list op) (observed : list oobs)
+| CHist (ops : list op) (observed : list oobs) (ranges : list (V * option (list (N * N))))
 (* the same requests against an unversioned instance: instanceSelector evaluates them at the
    repo's root version whatever uuid they name, and applies no committed-node check *)
 | CUnv (ops : list op) (observed : list oobs)
@@ -103,10 +103,43 @@ Fixpoint all2 {A B} (f : A -> B -> bool) (a : list A) (b : list B) : bool :=
   | _, _ => false
   end.
 
+(* range read (keyrangevalues k0..k9) of the final state at version v: the keys with a visible
+   value, ascending; any key in unresolved conflict makes the request fail *)
+Definition range_keys : list N := [0;1;2;3;4;5;6;7;8;9].
+Definition range_of (rd : N -> V -> rres) (v : V) : option (list (N * N)) :=
+  if existsb (fun k => match rd k v with RConflict | RFuel => true | _ => false end) range_keys
+  then None
+  else Some (flat_map (fun k => match rd k v with RFound _ x => [(k, x)] | _ => [] end) range_keys).
+
+Definition kvl_eqb (a b : list (N * N)) : bool :=
+  list_eqb (fun x y => (fst x =? fst y) && (snd x =? snd y)) a b.
+Definition range_matches (o e : option (list (N * N))) : bool :=
+  match o, e with
+  | Some a, Some b => kvl_eqb a b
+  | None, None => true
+  | _, _ => false
+  end.
+(* what the property allows: without a conflict exactly the point-read view; with one, anything
+   that does not present a value for a conflicted key *)
+Definition range_allowed (rd : N -> V -> rres) (v : V) (o : option (list (N * N))) : bool :=
+  match range_of rd v, o with
+  | Some b, Some a => kvl_eqb a b
+  | Some _, None => false
+  | None, None => true
+  | None, Some a =>
+    forallb (fun kx => match rd (fst kx) v with
+                       | RFound _ x => snd kx =? x
+                       | _ => false
+                       end) a
+  end.
+
 Definition model_ok (c : c01case) : bool :=
   match c with
   | CDag g keys v fuel o => obs_matches o (read (parents_of g) (kvv_of keys) fuel fuel v)
-  | CHist ops observed => all2 out_matches observed (trace ops core_init)
+  | CHist ops observed ranges =>
+    all2 out_matches observed (trace ops core_init) &&
+    let c := run ops core_init in
+    forallb (fun vr => range_matches (snd vr) (range_of (get c) (fst vr))) ranges
   | CUnv ops observed => all2 out_matches_unv observed (unv_trace ops [])
   | CEnum g n codes =>
     list_eqb N.eqb codes
@@ -139,7 +172,13 @@ Definition spec_class (c : c01case) : nat :=
   match c with
   | CDag g keys v fuel o =>
     if obs_allowed o (frontier_read (parents_of g) (kvv_of keys) fuel v) then 0%nat else 1%nat
-  | CHist ops observed => if hist_spec ops observed core_init then 0%nat else 1%nat
+  | CHist ops observed ranges =>
+    if hist_spec ops observed core_init then
+      (* the state the accepted requests built, read with the oracle *)
+      let c := run ops core_init in
+      let rd := fun k v => frontier_read (parents_of (dag c)) (ent_of c k) (fuel_of c) v in
+      if forallb (fun vr => range_allowed rd (fst vr) (snd vr)) ranges then 0%nat else 3%nat
+    else 1%nat
   | CUnv ops observed => if all2 out_matches_unv observed (unv_trace ops []) then 0%nat else 2%nat
   | CEnum g n codes =>
     if list_eqb N.eqb codes
